@@ -7,7 +7,7 @@
 (* the event violates.  Verdicts are total: a failing event is printed as    *)
 (* <<"FAIL", id, {clauses}>> and the run continues; <<"DONE", n>> proves      *)
 (* every event was consumed.                                                 *)
-EXTENDS Util, FA, Regex, CFG, PDA, TM, JFA, JRE, JCFG, JPDA, JTM, JENUM, JWIT, JTXT, JPARSE, JCHK, JPURE, JTRACE, Json, IOUtils
+EXTENDS Util, FA, Regex, CFG, PDA, TM, JFA, JRE, JCFG, JPDA, JTM, JENUM, JWIT, JTXT, JPARSE, JCHK, JPURE, JTRACE, JEXTRA, Json, IOUtils
 
 Events == ndJsonDeserialize(IOEnv.EVENTS)
 
@@ -37,6 +37,12 @@ Fails(e) ==
     [] e.op = "pda_transform" -> JPdaTransform(e)
     [] e.op = "tm_run"        -> JTmRun(e)
     [] e.op = "enum"          -> JEnum(e)
+    [] e.op = "cfg_cleanup"   -> JCfgCleanup(e)
+    [] e.op = "cfg_to_fa"     -> JCfgToFa(e)
+    [] e.op = "random_obj"    -> JRandom(e)
+    [] e.op = "automata_checker" -> JAutomataChecker(e)
+    [] e.op = "reachable"     -> JReachable(e)
+    [] e.op = "is_push_pop"   -> JPushPop(e)
     [] e.op = "ec_trace"      -> JEcTrace(e)
     [] e.op = "hop_trace"     -> JHopTrace(e)
     [] e.op = "iso_trace"     -> JIsoTrace(e)
